@@ -361,13 +361,22 @@ func genNames(rng *prng.R) []string {
 	return l
 }
 
+// a directory is a qid with the QTDIR bit, whatever other type bits it carries
+var dirTypes = []p9p.QType{p9p.QTDIR, p9p.QTDIR | p9p.QTTMP, p9p.QTDIR | p9p.QTAPPEND, p9p.QTDIR | p9p.QTEXCL, p9p.QTDIR | p9p.QTMOUNT, p9p.QTDIR | 0x7f}
+var fileTypes = []p9p.QType{0, p9p.QTTMP, p9p.QTAPPEND, p9p.QTEXCL, 0x7f}
+
 func genQid(rng *prng.R, dirProb int) p9p.Qid {
-	t := p9p.QType(rng.U64()) &^ p9p.QTDIR
+	var t p9p.QType
 	if rng.Intn(100) < dirProb {
-		t |= p9p.QTDIR
-	}
-	if rng.Bool() {
-		t &= p9p.QTDIR
+		t = dirTypes[rng.Intn(len(dirTypes))]
+		if rng.Chance(1, 5) {
+			t = p9p.QTDIR | p9p.QType(rng.U64())
+		}
+	} else {
+		t = fileTypes[rng.Intn(len(fileTypes))]
+		if rng.Chance(1, 5) {
+			t = p9p.QType(rng.U64()) &^ p9p.QTDIR
+		}
 	}
 	return p9p.Qid{Type: t, Version: uint32(rng.Intn(5)), Path: uint64(rng.Intn(1000))}
 }
@@ -476,13 +485,24 @@ func runSeq(r *rep.Report, rng *prng.R, e2e bool) {
 	}
 
 	// one operation: runs it, appends to ops/obs, applies the per-operation oracles
+	// the slice handed to the previous Walk, what the caller had put into it, and what was sent
+	var lastArg, lastMeant, lastSent []string
+	lastIssued := false
+	reuse := false // walk the SAME slice again
 	do := func(kind string, si int) {
-		var walkNames []string
+		var walkNames []string // what the caller means to walk (pristine)
+		var walkArg []string   // the slice actually handed to Walk
 		if kind == "walk" {
-			if rng.Chance(1, 4) {
-				walkNames = genLongNames(rng)
+			if reuse && lastArg != nil {
+				walkNames, walkArg = lastMeant, lastArg
 			} else {
-				walkNames = genNames(rng)
+				reuse = false
+				if rng.Chance(1, 4) {
+					walkNames = genLongNames(rng)
+				} else {
+					walkNames = genNames(rng)
+				}
+				walkArg = append([]string{}, walkNames...)
 			}
 		}
 		*p = plan{
@@ -505,7 +525,7 @@ func runSeq(r *rep.Report, rng *prng.R, e2e bool) {
 			dp := 85
 			p.walkQids = append(p.walkQids, genQid(rng, dp))
 		}
-		if steps, bsp := p9p.NormalizePath(walkNames); bsp >= 0 && len(steps) > 4 {
+		if steps, bsp := p9p.NormalizePath(append([]string{}, walkNames...)); bsp >= 0 && len(steps) > 4 { // on a copy: the pristine list stays pristine
 			// a long walk: all names exist / the walk stops somewhere / fails; and, should the
 			// session send it in several messages, the first message succeeds and a later one does not
 			switch rng.Intn(4) {
@@ -530,6 +550,11 @@ func runSeq(r *rep.Report, rng *prng.R, e2e bool) {
 		var efid uint32
 		if kind != "attach" {
 			ent, efid = slots[si].ent, slots[si].fid
+		}
+		slotWasDir, createSafe, createName, createQType := false, false, "", p9p.QType(0)
+		if kind == "create" {
+			createQType = ent.Qid().Type
+			slotWasDir = createQType&p9p.QTDIR != 0
 		}
 		panicked := false
 		var walkRes struct {
@@ -564,7 +589,7 @@ func runSeq(r *rep.Report, rng *prng.R, e2e bool) {
 				}
 			case "walk":
 				opHead = []sx.S{sx.Sym("walk"), sx.I(int64(si)), sx.Strs(walkNames)}
-				qids, e, err := ent.Walk(ctx, walkNames...)
+				qids, e, err := ent.Walk(ctx, walkArg...)
 				walkRes.qids, walkRes.ent, walkRes.err = qids, e, err
 				var w p9p.Warning
 				switch {
@@ -613,6 +638,8 @@ func runSeq(r *rep.Report, rng *prng.R, e2e bool) {
 				}
 				perm := uint32(rng.U64())
 				mode := p9p.Flag(rng.Pick(0, 1, 2))
+				createName = name
+				createSafe = name != "" && name != "." && name != ".." && !strings.ContainsAny(name, "/\\")
 				opHead = []sx.S{sx.Sym("create"), sx.I(int64(si)), sx.Str(name), sx.U(uint64(perm)), sx.U(uint64(mode))}
 				e, f, err := ent.Create(ctx, name, perm, mode)
 				switch {
@@ -691,6 +718,9 @@ func runSeq(r *rep.Report, rng *prng.R, e2e bool) {
 			if kind != "attach" && uint32(ic.fid) != efid {
 				r.Fail("cfs."+kind+".ownfid", fmt.Sprintf("%s on the entry with fid %d issued %s on fid %d", kind, efid, ic.kind, ic.fid), c, nil)
 			}
+			if kind == "walk" && reuse && lastIssued && strings.Join(ic.names, "\x00") != strings.Join(lastSent, "\x00") {
+				r.Fail("cfs.walk.same-slice-different-names", fmt.Sprintf("the same name slice %q walked twice: the first Walk sent %q, the second %q", walkNames, lastSent, ic.names), c, nil)
+			}
 			if kind == "walk" {
 				// the layer normalises before sending: no "", no ".", ".." only as a leading run, no separators
 				lead := true
@@ -733,6 +763,20 @@ func runSeq(r *rep.Report, rng *prng.R, e2e bool) {
 				}
 			}
 		}
+		if kind == "walk" {
+			// the caller's name list is the caller's: the call must leave it as it was
+			if len(walkArg) != len(walkNames) || strings.Join(walkArg, "\x00") != strings.Join(walkNames, "\x00") {
+				r.Fail("cfs.walk.argument-modified", fmt.Sprintf("Walk was handed %q; after the call the caller's slice holds %q", walkNames, walkArg), c, nil)
+			}
+			lastArg, lastMeant, lastIssued = walkArg, walkNames, len(issued) >= 1
+			lastSent = nil
+			if lastIssued {
+				lastSent = issued[0].names
+			}
+		}
+		if kind == "create" && len(issued) == 0 && slotWasDir && createSafe {
+			r.Fail("cfs.create.not-forwarded", fmt.Sprintf("Create(%q) on the directory entry with fid %d (qid type %#x) issued no session call", createName, efid, createQType), c, nil)
+		}
 		// live entries: pairwise distinct fids, none NOFID
 		seen := map[uint32]int{}
 		for i, s := range slots {
@@ -765,7 +809,14 @@ func runSeq(r *rep.Report, rng *prng.R, e2e bool) {
 			si = live[rng.Intn(len(live))]
 		}
 		kind := []string{"walk", "walk", "walk", "walk", "open", "opendir", "create", "create", "stat", "wstat", "clunk", "remove"}[rng.Intn(12)]
+		reuse = false
 		do(kind, si)
+		if kind == "walk" && rng.Chance(1, 4) && len(ops) < nops {
+			// a caller that keeps its name list and walks it again
+			reuse = true
+			do("walk", si)
+			reuse = false
+		}
 	}
 	// the caller lets go of everything it still holds
 	for i := range slots {
